@@ -119,6 +119,11 @@ func init() {
 		runHistories(r, profile{Hostile: 35, Faults: 25, Attack: 15, Logout: 8, Ticks: 15, OddRequest: true, Histories: scale(r, 60, 1500), Length: 45}, histRule)
 	}
 	checks["C15"] = func(r *Run) {
+		discoveryThroughFilter(r, "[C15]")
+		if r.unknownViolations() > 0 {
+			r.Finish("endpoint discovery failing and recovering under a long-lived filter")
+			return
+		}
 		runHistories(r, profile{Hostile: 60, Faults: 15, Attack: 25, Logout: 6, Ticks: 10, OddRequest: true, OddConfig: true, Histories: scale(r, 60, 1500), Length: 45}, histRule)
 	}
 	checks["C09"] = func(r *Run) {
